@@ -18,3 +18,7 @@ const (
 )
 
 func verifYield(site int) {}
+
+// verifMinSize is the initial size of a tree's backing buffer: always the
+// built-in default unless built with the verif tag.
+func verifMinSize(def int) int { return def }
